@@ -121,7 +121,8 @@ ImplItems(C, sels, i, cur, acc, dev) ==
                     inner == IF "DevSpreadKeepsOuterType" \in dev THEN cur ELSE fr.on
                 IN ImplItems(C, sels, i + 1, cur, ImplSel(C, fr.sels, inner, acc, dev), dev)
 ImplPolicy(C, dev) == ImplSel(C, C.op.sels, C.ts.query, Unit, dev)
-Trigger(d, C) == ImplPolicy(C, {d}) # ImplPolicy(C, {})
+\* the inputs on which a deviation can show: switching it changes the computed policy, alone or next to the others
+Trigger(d, C) == \E D \in SUBSET (Devs \ {d}) : ImplPolicy(C, D \cup {d}) # ImplPolicy(C, D)
 
 ----------------------------------------------------------------------------
 RECURSIVE JoinSet(_)
@@ -143,9 +144,12 @@ JudgeExec(x) ==
       exactReq == ObjectOnly(C) /\ cont = StaticSelected(C)
       sound == NotLooser(got, H)
       exact == exactReq => got = need
-      ideal == ImplPolicy(C, {})
+      \* the visitor model under every set of switches, computed once
+      pol == [D \in SUBSET Devs |-> ImplPolicy(C, D)]
+      ideal == pol[{}]
       idealOK == NotLooser(ideal, H) /\ (exactReq => ideal = need)
-      E == {D \in SUBSET Devs : D # {} /\ (\A d \in D : Trigger(d, C)) /\ got = ImplPolicy(C, D)}
+      Trig(d) == \E D \in SUBSET (Devs \ {d}) : pol[D \cup {d}] # pol[D]
+      E == {D \in SUBSET Devs : D # {} /\ (\A d \in D : Trig(d)) /\ got = pol[D]}
       verdict ==
         IF x.obs.problem # "" THEN "violation:problem"
         ELSE IF Len(x.obs.errors) > 0 THEN "invalid:request-errors"
@@ -153,7 +157,7 @@ JudgeExec(x) ==
         ELSE IF sound /\ exact THEN "ok"
         ELSE IF E = {} THEN (IF ~sound THEN "violation:looser" ELSE "violation:inexact")
         ELSE "k:" \o JoinSet({DevCode(d) : d \in CHOOSE D \in E : \A D2 \in E : Cardinality(D2) >= Cardinality(D)})
-      drift == IF got # ImplPolicy(C, Devs) THEN "policy" ELSE IF x.obs.data # Execute(C).val THEN "data" ELSE ""
+      drift == IF got # pol[Devs] THEN "policy" ELSE IF x.obs.data # Execute(C).val THEN "data" ELSE ""
   IN <<verdict, drift, IF exactReq THEN 1 ELSE 0, IF ObjectOnly(C) THEN 1 ELSE 0>>
 
 TInit == l = 1 /\ t = 0
